@@ -17,6 +17,11 @@ func init() { moreFacts = append(moreFacts, factsDeterminism) }
 
 var consensusPatterns = []string{"./app/...", "./x/...", "./precompiles/...", "./types/...", "./utils/...", "./ethereum/...", "./crypto/...", "./encoding/..."}
 
+// ante / post decorators and precompiles, by the repository's naming convention
+func isHandlerType(n string) bool {
+	return strings.HasSuffix(n, "Decorator") || n == "Precompile" || strings.HasSuffix(n, "Handler")
+}
+
 func skipFile(fn string) bool {
 	return strings.HasSuffix(fn, "_test.go") || strings.HasSuffix(fn, ".pb.go") || strings.HasSuffix(fn, ".pb.gw.go") ||
 		strings.Contains(fn, "/client/") || strings.Contains(fn, "/simulation/") || strings.Contains(fn, "/testutil/") || strings.Contains(fn, "/testdata/") || strings.Contains(fn, "/mocks/") || strings.Contains(fn, "_mocks")
@@ -29,7 +34,7 @@ func factsDeterminism() {
 		fmt.Fprintln(os.Stderr, "extract: go/packages:", err)
 		pkgs = nil
 	}
-	var ranges, nows, gos, writers, localReads [][2]string
+	var ranges, nows, gos, writers, localReads, handlerWriters [][2]string
 	calendarMethods := map[string]bool{"Year": true, "Month": true, "Day": true, "Hour": true, "Minute": true, "Weekday": true,
 		"YearDay": true, "Date": true, "Clock": true, "ISOWeek": true, "Format": true, "AppendFormat": true, "String": true,
 		"Zone": true, "Location": true, "MarshalJSON": true, "MarshalText": true, "MarshalBinary": true, "GobEncode": true}
@@ -150,6 +155,8 @@ func factsDeterminism() {
 							if len(t.Args) > 0 {
 								if fld := recvField(t.Args[0]); fld != "" && (recvType == "Keeper" || recvType == "Haqq") {
 									writers = append(writers, [2]string{fn + "::" + recvType + "." + fld, name})
+								} else if fld != "" && isHandlerType(recvType) {
+									handlerWriters = append(handlerWriters, [2]string{fn + "::" + recvType + "." + fld, name})
 								}
 							}
 						}
@@ -159,11 +166,15 @@ func factsDeterminism() {
 						for _, l := range t.Lhs {
 							if fld := recvField(l); fld != "" && (recvType == "Keeper" || recvType == "Haqq") {
 								writers = append(writers, [2]string{fn + "::" + recvType + "." + fld, name})
+							} else if fld != "" && isHandlerType(recvType) {
+								handlerWriters = append(handlerWriters, [2]string{fn + "::" + recvType + "." + fld, name})
 							}
 						}
 					case *ast.IncDecStmt:
 						if fld := recvField(t.X); fld != "" && (recvType == "Keeper" || recvType == "Haqq") {
 							writers = append(writers, [2]string{fn + "::" + recvType + "." + fld, name})
+						} else if fld != "" && isHandlerType(recvType) {
+							handlerWriters = append(handlerWriters, [2]string{fn + "::" + recvType + "." + fld, name})
 						}
 					}
 					return true
@@ -225,6 +236,172 @@ func factsDeterminism() {
 	}
 	sort.Slice(memFields, func(i, j int) bool { return memFields[i][0] < memFields[j][0] })
 	emitPairs("keeperMemFields", memFields, "every field of a struct named Keeper (consensus packages) that can hold data outside the store: package::Keeper.field → map | slice | chan | sync | ptr:<type> (pointer to a struct that is not a keeper, a store key or a codec)")
+
+	// the same question for everything else that sits on the transaction path and is built once per process: ante /
+	// post decorators (types with an AnteHandle / PostHandle method) and the precompiles (types with a Run method)
+	memKind := func(t types.Type) string {
+		switch u := t.Underlying().(type) {
+		case *types.Map:
+			return "map"
+		case *types.Slice:
+			if b, ok := u.Elem().Underlying().(*types.Basic); !ok || b.Kind() != types.Uint8 {
+				return "slice"
+			}
+		case *types.Chan:
+			return "chan"
+		case *types.Pointer:
+			if n, ok := u.Elem().(*types.Named); ok {
+				if _, isStruct := n.Underlying().(*types.Struct); isStruct && n.Obj().Pkg() != nil {
+					pp := n.Obj().Pkg().Path()
+					switch {
+					case pp == "sync" || pp == "sync/atomic":
+						return "sync"
+					case !strings.HasSuffix(n.Obj().Name(), "Keeper") && !strings.HasSuffix(n.Obj().Name(), "StoreKey") && !strings.Contains(pp, "/codec") && !strings.HasSuffix(n.Obj().Name(), "Codec"):
+						return "ptr:" + strings.TrimPrefix(pp, "github.com/haqq-network/haqq/") + "." + n.Obj().Name()
+					}
+				}
+			}
+		case *types.Struct:
+			if n, ok := t.(*types.Named); ok && n.Obj().Pkg() != nil && (n.Obj().Pkg().Path() == "sync" || n.Obj().Pkg().Path() == "sync/atomic") {
+				return "sync"
+			}
+		}
+		return ""
+	}
+	var handlerMem [][2]string
+	for _, p := range pkgs {
+		if p.Types == nil {
+			continue
+		}
+		rel := strings.TrimPrefix(p.PkgPath, "github.com/haqq-network/haqq/")
+		sc := p.Types.Scope()
+		for _, nm := range sc.Names() {
+			tn, ok := sc.Lookup(nm).(*types.TypeName)
+			if !ok {
+				continue
+			}
+			if fn := p.Fset.Position(tn.Pos()).Filename; skipFile("/" + strings.TrimPrefix(fn, repo+"/")) {
+				continue
+			}
+			st, ok := tn.Type().Underlying().(*types.Struct)
+			if !ok {
+				continue
+			}
+			onPath := false
+			for _, ms := range []*types.MethodSet{types.NewMethodSet(tn.Type()), types.NewMethodSet(types.NewPointer(tn.Type()))} {
+				for _, m := range []string{"AnteHandle", "PostHandle", "Run"} {
+					if ms.Lookup(p.Types, m) != nil {
+						onPath = true
+					}
+				}
+			}
+			if !onPath {
+				continue
+			}
+			for i := 0; i < st.NumFields(); i++ {
+				f := st.Field(i)
+				if k := memKind(f.Type()); k != "" {
+					handlerMem = append(handlerMem, [2]string{rel + "::" + nm + "." + f.Name(), k})
+				}
+			}
+		}
+	}
+	sort.Slice(handlerMem, func(i, j int) bool { return handlerMem[i][0] < handlerMem[j][0] })
+	sort.Slice(handlerWriters, func(i, j int) bool {
+		if handlerWriters[i][0] != handlerWriters[j][0] {
+			return handlerWriters[i][0] < handlerWriters[j][0]
+		}
+		return handlerWriters[i][1] < handlerWriters[j][1]
+	})
+	emitPairs("handlerFieldWriters", handlerWriters, "every assignment, increment or delete on a field of a method receiver whose type is a decorator (…Decorator, …Handler) or a Precompile: file::Type.field, method")
+	emitPairs("handlerMemFields", handlerMem, "every field of an ante / post decorator (AnteHandle, PostHandle) or precompile (Run) struct in consensus packages that can hold data outside the store: package::Type.field → map | slice | chan | sync | ptr:<type>")
+
+	// package-level variables that are written (assigned, indexed-assigned, appended to, incremented) inside a function
+	// body other than init: memory of the process shared by everything in it
+	var globalWrites [][2]string
+	for _, p := range pkgs {
+		if p.TypesInfo == nil {
+			continue
+		}
+		for _, f := range p.Syntax {
+			fn := strings.TrimPrefix(p.Fset.Position(f.Pos()).Filename, repo+"/")
+			if skipFile("/" + fn) {
+				continue
+			}
+			for _, d := range f.Decls {
+				fd, ok := d.(*ast.FuncDecl)
+				if !ok || fd.Body == nil || (fd.Recv == nil && fd.Name.Name == "init") {
+					continue
+				}
+				name := fd.Name.Name
+				if fd.Recv != nil && len(fd.Recv.List) > 0 {
+					name = typeName(fd.Recv.List[0].Type) + "." + name
+				}
+				seen := map[string]bool{}
+				note := func(e ast.Expr) {
+					for {
+						switch t := e.(type) {
+						case *ast.IndexExpr:
+							e = t.X
+							continue
+						case *ast.ParenExpr:
+							e = t.X
+							continue
+						case *ast.StarExpr:
+							e = t.X
+							continue
+						case *ast.SelectorExpr:
+							// pkgvar.field = …  (a field of a package-level struct variable)
+							if id, ok := t.X.(*ast.Ident); ok {
+								if v, ok := p.TypesInfo.Uses[id].(*types.Var); ok && v.Parent() == p.Types.Scope() {
+									e = t.X
+									continue
+								}
+							}
+						}
+						break
+					}
+					id, ok := e.(*ast.Ident)
+					if !ok {
+						return
+					}
+					v, ok := p.TypesInfo.Uses[id].(*types.Var)
+					if !ok || v.Pkg() == nil || v.Parent() != v.Pkg().Scope() {
+						return
+					}
+					key := fn + "::" + id.Name
+					if !seen[key] {
+						seen[key] = true
+						globalWrites = append(globalWrites, [2]string{key, name})
+					}
+				}
+				ast.Inspect(fd.Body, func(n ast.Node) bool {
+					switch t := n.(type) {
+					case *ast.AssignStmt:
+						if t.Tok.String() != ":=" {
+							for _, l := range t.Lhs {
+								note(l)
+							}
+						}
+					case *ast.IncDecStmt:
+						note(t.X)
+					case *ast.CallExpr:
+						if id, ok := t.Fun.(*ast.Ident); ok && id.Name == "delete" && len(t.Args) > 0 {
+							note(t.Args[0])
+						}
+					}
+					return true
+				})
+			}
+		}
+	}
+	sort.Slice(globalWrites, func(i, j int) bool {
+		if globalWrites[i][0] != globalWrites[j][0] {
+			return globalWrites[i][0] < globalWrites[j][0]
+		}
+		return globalWrites[i][1] < globalWrites[j][1]
+	})
+	emitPairs("packageVarWriters", globalWrites, "every write (assignment, indexed assignment, increment, delete) to a package-level variable from a function other than init, consensus packages: file::variable → function")
 
 	// bank-keeper methods called from Haqq's own packages (by the type of the receiver expression)
 	bankMethods := map[string]bool{}
